@@ -69,6 +69,7 @@ def rule_R1(ctx):
               "GREASE table is %s, RFC 8701 defines %s" % ([hex(v) for v in vals], [hex(v) for v in want]))
     # filters
     n = 0
+    direct = {}      # body path -> polarity of a direct table membership test written in it
     for b in P.bodies.values():
         if b.crate != "huginn_net_tls":
             continue
@@ -119,15 +120,25 @@ def rule_R1(ctx):
                             reg = Q.dominated_region(b, succ)
                             if any(pb in reg for pb, pt in Q.calls(b, "Vec::<T, A>::push")):
                                 polarity = "keeps-grease"
+            direct[b.path] = polarity
             ctx.check(polarity in ("keep-when-not-grease", "is-grease"), "R1", "filter:%s" % owner, "membership in TLS_GREASE_VALUES, %s" % polarity,
                       "GREASE filter in %s has the wrong polarity (%s): GREASE values are kept / real values dropped" % (owner, polarity), ctx.loc(b, blk))
     ctx.floor("R1", "GREASE membership tests", n, 3)
     # is_grease_value(v) is exactly membership of v in the table (no mask / range shortcut)
-    ig = P.body(TLS + "is_grease_value")
-    SI = T.Slicer(ig, P)
+    ig = P.bodies.get(TLS + "is_grease_value")
+    fg = P.body(TLS + "filter_grease_values")
+    if ig is None:
+        # the one-line helper was folded into its only caller: the membership test is then judged where it is written (loop above)
+        from ..engine import lists as L
+        pol = [direct.get(x.path) for x in L.with_closures(P, fg) if x.path in direct]
+        ctx.check(pol == ["keep-when-not-grease"], "R1", "filter_grease_values", "keeps exactly the values that are not in TLS_GREASE_VALUES",
+                  "filter_grease_values does not keep exactly the non-GREASE values (membership tests found: %s)" % pol, ctx.loc(fg))
+        rs = []
+    else:
+        SI = T.Slicer(ig, P)
+        rs = TB.return_sites(ig, P)
     okm = True
     why = ""
-    rs = TB.return_sites(ig, P)
     for (blk, j, term, _) in rs:
         tt = T.strip(term)
         is_any = tt[0] == "call" and tt[1].endswith("::any") and _any_is_equality(P, tt[2])
@@ -148,17 +159,24 @@ def rule_R1(ctx):
             (is_any and any(x[0] == "param" and x[1] == 0 for y in tt[2][1:] for x in T.walk(T.expand_upvars(P, ig, y))) or is_any and _closure_captures_param(ig, SI, tt))
         if not (table_ok and arg_ok):
             okm, why = False, "contains(%s, %s)" % (T.pp(tt[2][0])[:40], T.pp(tt[2][1])[:40])
-    ctx.check(okm and len(rs) >= 1, "R1", "is_grease_value:membership", "is_grease_value(v) = TLS_GREASE_VALUES.contains(&v)",
-              "is_grease_value is not plain membership in the 16-entry GREASE table (%s): values that merely resemble GREASE are dropped from JA4_b / JA4_c, or GREASE is kept" % why, ctx.loc(ig))
-    # filter_grease_values keeps !is_grease_value
-    fg = P.body(TLS + "filter_grease_values")
-    okf = False
-    for cb in P.closures_of(fg.path):
-        cs = [t for _, t in cb.calls() if callee_of(t).endswith("is_grease_value")]
-        nots = [s for _, _, s in cb.iter_stmts() if s["k"] == "assign" and s["p"]["l"] == 0 and s["r"]["k"] == "unop" and s["r"]["op"] == "Not"]
-        if cs and nots:
-            okf = True
-    ctx.check(okf, "R1", "filter_grease_values", "filter(|v| !is_grease_value(v))", "filter_grease_values does not keep exactly the non-GREASE values", ctx.loc(fg))
+    if ig is not None:
+        ctx.check(okm and len(rs) >= 1, "R1", "is_grease_value:membership", "is_grease_value(v) = TLS_GREASE_VALUES.contains(&v)",
+                  "is_grease_value is not plain membership in the 16-entry GREASE table (%s): values that merely resemble GREASE are dropped from JA4_b / JA4_c, or GREASE is kept" % why, ctx.loc(ig))
+        # filter_grease_values keeps !is_grease_value
+        okf = False
+        for cb in P.closures_of(fg.path):
+            cs = [t for _, t in cb.calls() if callee_of(t).endswith("is_grease_value")]
+            nots = [s for _, _, s in cb.iter_stmts() if s["k"] == "assign" and s["p"]["l"] == 0 and s["r"]["k"] == "unop" and s["r"]["op"] == "Not"]
+            if cs and nots:
+                okf = True
+        # ... or in a loop: `if is_grease_value(v) { continue } kept.push(v)`
+        if not okf:
+            SF = T.Slicer(fg, P)
+            for pb, pt in Q.calls(fg, "Vec::<T, A>::push"):
+                for c in Q.canon_conds(P, T.dom_conds(fg, SF, pb)):
+                    if c[0] == "bool" and c[2] is False and c[1][0] == "call" and c[1][1].endswith("is_grease_value"):
+                        okf = True
+        ctx.check(okf, "R1", "filter_grease_values", "filter(|v| !is_grease_value(v))", "filter_grease_values does not keep exactly the non-GREASE values", ctx.loc(fg))
     # which lists are filtered at extraction / in the generator
     gen = P.method1("Signature", "generate_ja4_with_order")
     S = T.Slicer(gen, P)
@@ -310,6 +328,110 @@ def _all_versions(b, start):
     return out
 
 
+def _dropped_by_predicate(P, cb):
+    """For a `retain` predicate over integer items: the set of item values for which it returns false, provided it returns true for
+    every other value; None when the closure is not a boolean function of `item == constant` tests.  Decided by evaluating the
+    closure's decision rows for each constant it mentions and for `any other value` - `x != A && x != B`, `!(x == A || x == B)`,
+    `!matches!(x, A | B)` and a match with a catch-all arm all give {A, B}."""
+    from ..engine import decision as D
+    rows = D.decision_rows(P, cb)
+    if not rows:
+        return None
+    ks = set()
+
+    def consts_of(t):
+        t = T.strip(t)
+        if t[0] == "binop" and t[1] in ("Eq", "Ne"):
+            for s_ in (t[2], t[3]):
+                k = T.fold_int(s_)
+                if k is not None:
+                    ks.add(k)
+        for c in t[1:]:
+            if isinstance(c, tuple) and c and isinstance(c[0], str):
+                consts_of(c)
+    for r in rows:
+        for c in r.conds:
+            if c[0] == "cmp":
+                for s_ in (c[2], c[3]):
+                    k = T.fold_int(s_)
+                    if k is not None:
+                        ks.add(k)
+            elif c[0] == "int":
+                if isinstance(c[2], int):
+                    ks.add(c[2])
+                elif isinstance(c[2], tuple):
+                    for v in (c[2][1] if len(c[2]) > 1 else ()):
+                        if isinstance(v, int):
+                            ks.add(v)
+        consts_of(r.ret)
+
+    def ev(t, v):
+        t = T.strip(t)
+        if t[0] == "const" and isinstance(t[1], bool):
+            return t[1]
+        if t[0] == "unop" and t[1] == "Not":
+            x = ev(t[2], v)
+            return None if x is None else not x
+        if t[0] == "binop" and t[1] in ("Eq", "Ne"):
+            k = T.fold_int(t[3])
+            other = t[2]
+            if k is None:
+                k, other = T.fold_int(t[2]), t[3]
+            if k is None or not any(x[0] == "param" and x[1] >= 1 for x in T.walk(other)):
+                return None
+            eq = (v == k)
+            return eq if t[1] == "Eq" else not eq
+        if t[0] == "binop" and t[1] in ("BitOr", "BitAnd"):
+            x, y = ev(t[2], v), ev(t[3], v)
+            if x is None or y is None:
+                return None
+            return (x or y) if t[1] == "BitOr" else (x and y)
+        return None
+
+    def cond(c, v):
+        if c[0] == "cmp" and c[1] in ("Eq", "Ne"):
+            x = ev(("binop", c[1], c[2], c[3]), v)
+            return None if x is None else (x == c[4])
+        if c[0] == "bool":
+            x = ev(c[1], v)
+            return None if x is None else (x == c[2])
+        if c[0] == "int":
+            lab = c[2]
+            if isinstance(lab, int):
+                return v == lab
+            if isinstance(lab, tuple) and lab and lab[0] == "else":
+                return v not in lab[1]
+            if isinstance(lab, tuple) and lab and lab[0] == "anyof":
+                return v in lab[1]
+        return None
+    dropped = set()
+    for v in sorted(ks) + ["other"]:
+        vals = set()
+        for r in rows:
+            ok = True
+            for c in r.conds:
+                x = cond(c, v)
+                if x is None:
+                    return None
+                if not x:
+                    ok = False
+                    break
+            if ok:
+                rv = ev(r.ret, v)
+                if rv is None:
+                    return None
+                vals.add(rv)
+        if len(vals) != 1:
+            return None
+        keep = vals.pop()
+        if v == "other":
+            if not keep:
+                return None
+        elif not keep:
+            dropped.add(v)
+    return dropped
+
+
 def rule_R5_R6_R7(ctx):
     P = ctx.program
     gen = P.method1("Signature", "generate_ja4_with_order")
@@ -344,12 +466,9 @@ def rule_R5_R6_R7(ctx):
         cl = T.strip(a[1])
         consts = set()
         if cl[0] == "agg" and cl[1] == "closure" and cl[2] in P.bodies:
-            cb = P.bodies[cl[2]]
-            for i, j, s in cb.iter_stmts():
-                if s["k"] == "assign" and s["r"]["k"] == "binop" and s["r"]["op"] == "Ne":
-                    for side in ("a", "b"):
-                        if "k" in s["r"][side]:
-                            consts.add(T.const_value(s["r"][side]["k"])[1])
+            consts = _dropped_by_predicate(P, P.bodies[cl[2]])
+            if consts is None:
+                consts = {"?"}
         ctx.check(oc is False and fields == {"extensions"} and consts == {0x0000, 0x0010}, "R5", "retain:sni-alpn",
                   "SNI(0x0000) and ALPN(0x0010) removed from the extension list only in the sorted variant",
                   "retain on %s under original_order=%s keeps values != %s" % (sorted(fields), oc, sorted(consts)), ctx.loc(gen, blk))
